@@ -252,6 +252,11 @@ func (d dscript) js() string {
 		b.WriteString("  var dn = host.length;\n")
 		b.WriteString("  if (!weekdayRange(\"SUN\", \"SAT\") || weekdayRange(\"Q\" + dn) || !dateRange(1000 + dn, 9000 + dn) || dateRange(3000 + dn) ||\n" +
 			"      !timeRange(0, 23) || timeRange(24 + dn) || !weekdayRange(\"MON\", \"SUN\", \"GMT\")) return \"date-time-helper-differs\";\n")
+		// nor do these: no weekday, month or hour is called by the name of an Object.prototype member (the helpers
+		// look their words up in plain objects), by the empty string or by "length"
+		b.WriteString("  if (weekdayRange(\"constructor\") || weekdayRange(\"toString\", \"valueOf\") || weekdayRange(\"__proto__\") || weekdayRange(\"hasOwnProperty\", \"GMT\") ||\n" +
+			"      weekdayRange(\"\") || dateRange(\"constructor\") || dateRange(\"toString\", \"valueOf\") || dateRange(\"__proto__\") || dateRange(\"isPrototypeOf\", \"GMT\") ||\n" +
+			"      dateRange(\"length\") || timeRange(\"constructor\") || timeRange(\"toString\", \"valueOf\") || timeRange(\"__proto__\", \"GMT\")) return \"date-time-word-differs\";\n")
 	}
 	if d.guards&1 != 0 {
 		b.WriteString("  if (" + name + ".length !== 2) return \"arity-differs\";\n")
